@@ -23,6 +23,11 @@ namespace OP2Utility
 
 	BitmapFile BitmapFile::CreateIndexed(uint16_t bitCount, uint32_t width, int32_t height)
 	{
+		// The absolute value of the most negative height is not representable
+		if (height == std::numeric_limits<int32_t>::min()) {
+			throw std::runtime_error("Bitmap height is out of range");
+		}
+
 		BitmapFile bitmapFile;
 		bitmapFile.imageHeader = ImageHeader::Create(width, height, bitCount);
 		bitmapFile.palette.resize(bitmapFile.imageHeader.CalcMaxIndexedPaletteSize());
